@@ -82,30 +82,7 @@ func c01Small(c *Ctx) {
 		}
 	}
 
-	// (3) errors are stamped with the path before the presenter sees them
-	c.R.Rule("error-on-path", "package graphql: every call of an ErrorPresenterFunc value receives the result of ErrorOnPath(ctx, err)", 1)
-	nPres := 0
-	for _, fn := range c.moduleFuncs(func(p string) bool { return p == pkgGraphql }) {
-		for _, b := range fn.Blocks {
-			for _, in := range b.Instrs {
-				call, ok := in.(*ssa.Call)
-				if !ok || call.Call.IsInvoke() || call.Call.StaticCallee() != nil || !an.NamedIs(call.Call.Value.Type(), pkgGraphql, "ErrorPresenterFunc") {
-					continue
-				}
-				nPres++
-				arg := an.Strip(call.Call.Args[len(call.Call.Args)-1])
-				onPath := false
-				if ac, ok := arg.(*ssa.Call); ok && an.CalleeOf(ac).FullName() == pkgGraphql+".ErrorOnPath" {
-					onPath = true
-				}
-				c.R.Check(onPath, shortFn(topFn(fn))+"/presenter-call", c.ipos(in), "presented error carries the path",
-					"the error is handed to the presenter without ErrorOnPath: a *gqlerror.Error returned by a resolver without a path is reported with no path at all")
-			}
-		}
-	}
-	if nPres < 1 {
-		c.R.Fail("error-on-path: no call of an ErrorPresenterFunc in package graphql")
-	}
+	errorOnPath(c)
 
 	// (4)–(6) per materialised executor
 	var emit4, emit5, emit6 []func()
@@ -324,4 +301,32 @@ func accessPath(v ssa.Value, depth int) string {
 		return accessPath(x.X, depth+1) + "." + name
 	}
 	return v.Name()
+}
+
+// errorOnPath: shared with C04 (one error at its path).
+func errorOnPath(c *Ctx) {
+	// (3) errors are stamped with the path before the presenter sees them
+	c.R.Rule("error-on-path", "package graphql: every call of an ErrorPresenterFunc value receives the result of ErrorOnPath(ctx, err)", 1)
+	nPres := 0
+	for _, fn := range c.moduleFuncs(func(p string) bool { return p == pkgGraphql }) {
+		for _, b := range fn.Blocks {
+			for _, in := range b.Instrs {
+				call, ok := in.(*ssa.Call)
+				if !ok || call.Call.IsInvoke() || call.Call.StaticCallee() != nil || !an.NamedIs(call.Call.Value.Type(), pkgGraphql, "ErrorPresenterFunc") {
+					continue
+				}
+				nPres++
+				arg := an.Strip(call.Call.Args[len(call.Call.Args)-1])
+				onPath := false
+				if ac, ok := arg.(*ssa.Call); ok && an.CalleeOf(ac).FullName() == pkgGraphql+".ErrorOnPath" {
+					onPath = true
+				}
+				c.R.Check(onPath, shortFn(topFn(fn))+"/presenter-call", c.ipos(in), "presented error carries the path",
+					"the error is handed to the presenter without ErrorOnPath: a *gqlerror.Error returned by a resolver without a path is reported with no path at all")
+			}
+		}
+	}
+	if nPres < 1 {
+		c.R.Fail("error-on-path: no call of an ErrorPresenterFunc in package graphql")
+	}
 }
